@@ -115,6 +115,8 @@ def run(rep, tier, props):
             _emit(rep, dict(sig='C08:unexpected-exception:%s:%s:%s' % (r['phase'], r['exc'].split(':')[0], ctag), prop='C08', what=r['exc'], **detail), props)
             continue
         stats['cones'][ctag] = stats['cones'].get(ctag, 0) + 1
+        for ir in r.get('interface_raised', []):
+            _emit(rep, dict(sig='C11:' + ir, prop='C11', what='a solver interface raised instead of reporting that no solution is available', **detail), props)
         for k in job['decl']['pats']:
             stats['patterns'][k] = stats['patterns'].get(k, 0) + 1
         v = verdicts.get(job['tid'])
@@ -133,6 +135,16 @@ def run(rep, tier, props):
             d2, p2 = r.get('dval2'), r.get('pval2')
             if job.get('second') and d2 is not None:
                 rep.inconclusive += 1    # one solver failed on the dual, the other did not: numerical, not structural
+                continue
+            ds = (r.get('dstatus') or '').lower()
+            if ds.startswith('interface-raised'):
+                rep.inconclusive += 1
+                continue
+            if job['solver'] == 'eco' and not job.get('second') and not ('infeasible' in ds or 'unbounded' in ds):
+                # exponential-cone duals can only be solved by ECOS here; "numerical problems" / "close to optimal" /
+                # iteration limits are the solver giving up on a degenerate dual, not a certificate of a wrong dual
+                rep.inconclusive += 1
+                stats['exp_dual_numerical'] = stats.get('exp_dual_numerical', 0) + 1
                 continue
             _emit(rep, dict(sig='C08:dual-unsolvable:%s:pats%s' % (ctag, _patclass(job)), prop='C08',
                             what='primal solved to optimality (%.6g) but the dual program could not be solved' % p, **detail), props)
